@@ -389,6 +389,11 @@ class Interp:
 
     def e_BoolOp(self, e, env):
         is_or = isinstance(e.op, ast.Or)
+        if self.ctx.pure:
+            # inside a schema body (branch-free evaluation): both operands are evaluated and
+            # combined; sound for operands that cannot raise, which pure mode already demands
+            ts = [self.truth(self.eval(sub, env)) for sub in e.values]
+            return VBool(z3.Or(*ts) if is_or else z3.And(*ts))
         v = None
         for i, sub in enumerate(e.values):
             v = self.eval(sub, env)
